@@ -3,9 +3,10 @@
  *   schema <dsl> <yang-hex>             register the schema named by the DSL token      -> ok <n> <node-summary>*
  *   canon <dsl> <dump>                  build the tree through lyd_new_* and dump it    -> ok <dump>
  *   build <dsl> <desc>                  build explicit nodes, validate (adds defaults)  -> ok <dump> | err Invalid   [impl only]
- *   diff <dsl> <A> <B> <opts>           lyd_diff_siblings                               -> ok <diff-dump>
- *   diffapply <dsl> <A> <B> <opts>      lyd_diff_apply_all(dup A, diff(A,B))            -> ok <dump> | err <E>
- *   apply3 <dsl> <A> <B> <C> <opts>     lyd_diff_apply_all(dup C, diff(A,B))            -> ok <dump> | err <E>
+ *   diff <dsl> <A> <B> <opts> <fx>      lyd_diff_siblings                               -> ok <diff-dump> <index of the returned node>
+ *   diffapply <dsl> <A> <B> <opts> <fx> lyd_diff_apply_all(copy of A, diff(A,B))        -> ok <dump> | err <E>
+ *   apply3 <dsl> <A> <B> <C> <opts> <fx>  lyd_diff_apply_all(C, diff(A,B))              -> ok <dump> | err <E>
+ *        (<fx> = "fx=<ids>": repaired findings the MODEL has to follow; ignored here)
  *   law <dsl> <A> <B> <opts>            C06's laws on the implementation                -> ok <name>=<verdict>*          [impl only]
  *   leakcheck                                                                         -> ok <n>
  * Trees travel as hex(canonical dump) (treeproto.h). <opts>: 1 = LYD_DIFF_DEFAULTS.                                   */
@@ -302,7 +303,7 @@ main(void)
             }
             lyd_free_all(t);
             free(text);
-        } else if (!strcmp(op, "diff") && r.ntok == 7) {
+        } else if (!strcmp(op, "diff") && r.ntok == 8) {
             struct lyd_node *A, *B, *d = NULL;
             LY_ERR rc;
 
@@ -316,7 +317,7 @@ main(void)
                 vp_begin(id, "ok"); tp_field_dump(s, d); vp_field_u(nprev(d)); vp_end();
             }
             lyd_free_all(d); lyd_free_all(A); lyd_free_all(B);
-        } else if ((!strcmp(op, "diffapply") && r.ntok == 7) || (!strcmp(op, "apply3") && r.ntok == 8)) {
+        } else if ((!strcmp(op, "diffapply") && r.ntok == 8) || (!strcmp(op, "apply3") && r.ntok == 9)) {
             int three = (op[0] == 'a');
             struct lyd_node *A, *B, *C = NULL, *d = NULL;
             LY_ERR rc;
